@@ -7,7 +7,7 @@ import time
 from . import driver, procs, runner
 from .choices import hash64
 
-KNOWN_FINDINGS = "/verif/known_findings.json"
+KNOWN_FINDINGS = os.path.join(runner.ROOT, "known_findings.json")
 
 # property -> list of workloads: (profile, mode, quick runs, thorough runs, opts)
 PROPS = {
@@ -221,7 +221,7 @@ def run_check(prop, tier, verif_seed, runs_override=None):
     known = [k for k in load_known() if k["property"] == prop and k["status"] == "known"]
     known_lines = []
     for k in known:
-        payload, res, hit = driver.replay_file(os.path.join("/verif", k["replay"]))
+        payload, res, hit = driver.replay_file(os.path.join(runner.ROOT, k["replay"]))
         if hit:
             line = f"KNOWN-FINDING: property={prop} {k['what']}"
             print(line, flush=True)
@@ -309,7 +309,7 @@ def run_check(prop, tier, verif_seed, runs_override=None):
     if rc == 0 and main.runs == 0:
         print(f"HARNESS-ERROR property={prop} no runs completed")
         rc = 2
-    print(f"[{prop}] done rc={rc} wall={time.monotonic() - t0:.1f}s evidence=/verif/evidence/{prop}.json", flush=True)
+    print(f"[{prop}] done rc={rc} wall={time.monotonic() - t0:.1f}s evidence={runner.EVIDENCE_DIR}/{prop}.json", flush=True)
     return rc
 
 
